@@ -58,7 +58,7 @@ class H(common.Harness):
             if eng.choose([z3.Bool(f"ph{i}"), z3.Not(z3.Bool(f"ph{i}"))]) == 0:
                 page, d["placeholder"] = None, True
             c.groups = {"volume": Atom(d["vol"]), "reporter": Atom(d["rep"]), "page": page}
-            if kind != "full_journal" and eng.choose([z3.Bool(f"xg{i}"), z3.Not(z3.Bool(f"xg{i}"))]) == 0:
+            if kind != "full_journal" and (not self.params.get("xg_choice") or eng.choose([z3.Bool(f"xg{i}"), z3.Not(z3.Bool(f"xg{i}"))]) == 0):
                 # the other groups case extractors of the database capture (a year inside the reporter's own
                 # pattern, a nominative reporter in parentheses): arbitrary values that must not matter
                 d["xg"] = {"year": eng.fresh_int("gyear"), "reporter_nominative": eng.fresh_int("gnomr"), "volume_nominative": eng.fresh_int("gnomv")}
@@ -266,7 +266,150 @@ class HPost(common.Harness):
         return [self.check("C16:placeholder_page_iff_all_underscores", all_us if got_none else z3.Not(all_us), self.witness)]
 
 
+# ---------------------------------------------------------------- normal form: re-parse and fixed point
+NORM_REPORTERS = [
+    # (written reporter string, canonical edition string it is unambiguously mapped to)
+    ("U.S.", "U.S."), ("U. S.", "U.S."), ("Misc. 3d", "Misc. 3d"), ("Misc 3d", "Misc. 3d"), ("NY Slip Op", "NY Slip Op"), ("N.Y. Slip Op.", "NY Slip Op"),
+]
+NORM_SUFFIXES = ["", "[U]", "(U)", "[A]", "(A)"]
+
+
+class HNorm(common.Harness):
+    """corrected_citation() of a citation of the shape  V R P  (V, P arbitrary digits, P optionally followed by
+    an unpublished-opinion marker, R a spelling the database maps unambiguously to an edition): the text is
+    V <canonical reporter> <standardised page>; the citation that text is parsed into (groups = its three
+    components, the canonical edition as exact candidate) is equal to the original (==, hash) and its own
+    normal form is the same text."""
+
+    def __init__(self, params):
+        super().__init__(params)
+        import eyecite.models as M
+        import eyecite.utils as U
+        from vf import symre
+
+        self.M, self.symre = M, symre
+        symre.install(self.interp)
+        self.interp.stubs[U.hash_sha256] = lambda d: absval.StructKey(dict(d))
+
+    def digits(self, tag, n):
+        out = []
+        for i in range(n):
+            d = z3.Int(f"{tag}{i}")
+            self.eng.add(d >= 48, d <= 57)
+            if i == 0 and tag == "v":
+                self.eng.add(d >= 49)
+            out.append(d)
+        return out
+
+    def cite(self, vol, rep, page, edition):
+        M, CStr = self.M, self.symre.CStr
+        sp = [32]
+        data = CStr(list(vol) + sp + [ord(c) for c in rep] + sp + list(page))
+        tok = M.CitationToken(data, 0, len(data), groups={"volume": CStr(list(vol)), "reporter": rep, "page": CStr(list(page))}, exact_editions=(edition,) if rep == edition.short_name else (), variation_editions=() if rep == edition.short_name else (edition,))
+        # built through the interpreted __post_init__ (placeholder-page test on the symbolic page included)
+        c = self.interp.instantiate(M.FullCaseCitation, (tok, 0), {"exact_editions": tok.exact_editions, "variation_editions": tok.variation_editions})
+        c.edition_guess = None
+        self.interp.call(M.ResourceCitation.guess_edition, (c,), {})
+        return c
+
+    def run(self):
+        eng, M = self.eng, self.M
+        import eyecite.tokenizers as T
+
+        ri = eng.choose([z3.Int("reporter") == k for k in range(len(NORM_REPORTERS))])
+        rep, canon = NORM_REPORTERS[ri]
+        edition = T.EDITIONS_LOOKUP[canon][0]
+        nv = 1 + eng.choose([z3.Int("nvol") == k for k in range(2)])
+        np_ = 1 + eng.choose([z3.Int("npage") == k for k in range(2)])
+        suf = NORM_SUFFIXES[eng.choose([z3.Int("suffix") == k for k in range(len(NORM_SUFFIXES))])]
+        self.vol, self.page = self.digits("v", nv), self.digits("p", np_) + [ord(c) for c in suf]
+        self.rep, self.canon, self.suf = rep, canon, suf
+        c = self.cite(self.vol, rep, self.page, edition)
+        text = self.interp.call(M.ResourceCitation.corrected_citation, (c,), {})
+        # the standardised page as the property words it: square-bracket markers become round ones for the
+        # reporters that use them
+        from eyecite.utils import REPORTERS_THAT_NEED_PAGE_CORRECTION as NEED
+
+        std = {"[U]": "(U)", "[A]": "(A)"}.get(suf, suf) if canon in NEED else suf
+        self.page2 = self.page[: len(self.page) - len(suf)] + [ord(ch) for ch in std]
+        c2 = self.cite(self.vol, canon, self.page2, edition)
+        text2 = self.interp.call(M.ResourceCitation.corrected_citation, (c2,), {})
+        eq = self.interp.truth(self.interp.eq(c, c2))
+        h1, h2 = self.interp.hash_of(c), self.interp.hash_of(c2)
+        heq = bool(h1 == h2)
+        return c, text, text2, bool(eq), heq
+
+    def witness(self, m):
+        f = lambda cs: "".join(chr(x if isinstance(x, int) else (mval(m, x) or 48)) for x in cs)
+        return {"text": f"{f(self.vol)} {self.rep} {f(self.page)}", "normal_form_expected": f"{f(self.vol)} {self.canon} {f(self.page2)}"}
+
+    def describe(self, kind, out):
+        m = self.eng.path_model()
+        return self.witness(m) if m is not None else {}
+
+    def judge(self, kind, out):
+        if kind == "exc":
+            return [self.check("C16:norm:no_exception:" + type(out).__name__, False, self.witness)]
+        c, text, text2, eq, heq = out
+        CStr = self.symre.CStr
+        want = CStr(list(self.vol) + [32] + [ord(ch) for ch in self.canon] + [32] + list(self.page2))
+        same = lambda a, b: (a == b) if isinstance(a, str) and isinstance(b, str) else (CStr.lit(a) if isinstance(a, str) else a) == (CStr.lit(b) if isinstance(b, str) else b)
+        r1, r2 = same(text, want), same(text2, want)
+        lift = lambda r: r.e if isinstance(r, symex.SBool) else z3.BoolVal(bool(r))
+        return [
+            self.check("C16:normal_form_is_volume_canonical_reporter_standardised_page", lift(r1), self.witness),
+            self.check("C16:normal_form_is_a_fixed_point_of_normalisation", lift(r2), self.witness),
+            self.check("C16:normal_form_reparses_to_an_equal_citation", z3.BoolVal(eq and heq), self.witness),
+        ]
+
+
+def replay_norm(w):
+    """the same three clauses on the real code through the public API: extract, normalise, extract again."""
+    import logging
+
+    from eyecite import get_citations
+
+    logging.disable(logging.WARNING)
+    try:
+        # the model fixes the reporter spelling and the page marker; the database's own page patterns ask for
+        # particular digit counts, so the digits are taken from the model first and then from realistic values
+        vol, rest = w["text"].split(" ", 1)
+        rep_, page = rest.rsplit(" ", 1)
+        digits = "".join(ch for ch in page if ch.isdigit())
+        suffix = page[len(digits):]
+        exp_vol, exp_rest = w["normal_form_expected"].split(" ", 1)
+        exp_rep, exp_page = exp_rest.rsplit(" ", 1)
+        exp_suffix = exp_page[len("".join(ch for ch in exp_page if ch.isdigit())):]
+        cands = [(vol, digits)] + [(v, d) for v in ("20", "2009") for d in ("1234", "50123")]
+        for v, d in cands:
+            text = f"{v} {rep_} {d}{suffix}"
+            cs = get_citations(text)
+            if len(cs) == 1 and cs[0].matched_text() == text:
+                w = dict(w, text=text, normal_form_expected=f"{v} {exp_rep} {d}{exp_suffix}")
+                break
+        else:
+            return None, f"no realisation of the shape {w['text']!r} is extracted as one whole citation"
+        c = cs[0]
+        t = c.corrected_citation()
+        cs2 = get_citations(t)
+        if len(cs2) != 1:
+            return ["C16:normal_form_reparses_to_an_equal_citation"], f"normal form {t!r} parses into {len(cs2)} citations"
+        c2 = cs2[0]
+        bad = []
+        if t != w["normal_form_expected"]:
+            bad.append("C16:normal_form_is_volume_canonical_reporter_standardised_page")
+        if c2.corrected_citation() != t:
+            bad.append("C16:normal_form_is_a_fixed_point_of_normalisation")
+        if not (c2 == c and hash(c2) == hash(c)):
+            bad.append("C16:normal_form_reparses_to_an_equal_citation")
+        return bad, f"{w['text']!r} -> normal form {t!r} -> re-parsed groups {c2.groups} vs original {c.groups}: equal={c2 == c}"
+    finally:
+        logging.disable(logging.NOTSET)
+
+
 def make(params):
+    if params.get("part") == "norm":
+        return HNorm(params)
     return HPost(params) if params.get("part") == "post_init" else H(params)
 
 
@@ -431,9 +574,10 @@ def check(rep):
     quick = rep.tier == "quick"
     N = 2 if quick else 3
     rep.bounds.append(f"{N} citations at a time (pairs: equality/hash/resource agreement and the spec; triples in the thorough tier add transitivity); kinds {KINDS}; candidate editions from a pool of 2 with 7 exact/variation configurations; volume, page, reporter symbolic")
-    rep.outside += ["corrected_citation() round trip through the extractor (needs the regex engines); years (guess_edition with a year is decided in C18)", "supra and reference citations (the property does not state their equality)"]
+    rep.outside += ["that the extractor captures the three components of a normal-form text (the regex engines: C01's recognisability clauses); normal forms of shapes other than volume-reporter-page; years (guess_edition with a year is decided in C18)", "supra and reference citations (the property does not state their equality)"]
     rep.stubs += ["hash_sha256: injective (collision-free); id() values differ from digests and from each other", "context fields (metadata, year, spans, index) are poisoned: any read raises", "case citations optionally carry the other regex groups of the database's case extractors (year, reporter_nominative, volume_nominative) with arbitrary values"]
-    agg = common.explore_split("vf.harness.c16", {"N": N}, depth=3 if quick else 4)
+    # quick: every case citation carries the extra regex groups (arbitrary values); thorough: with and without them
+    agg = common.explore_split("vf.harness.c16", {"N": N, "xg_choice": not quick}, depth=3 if quick else 4)
     rep.merge_explore("equality", agg)
     n_ob = sum(agg["verdicts"].values())
     n_ok = sum(v for k, v in agg["verdicts"].items() if k.endswith(":valid"))
@@ -474,6 +618,31 @@ def check(rep):
         else:
             rep.spurious += 1
             rep.inconc(f"{f['clause']}: model did not reproduce: {w}")
+    # normal form: text, fixed point, re-parse
+    aggn = common.explore_split("vf.harness.c16", {"part": "norm"}, depth=4)
+    rep.merge_explore("normal_form", aggn)
+    rep.bounds.append(f"normal-form clause: citations  V R P  with V, P of 1..2 arbitrary digits, P optionally followed by one of {NORM_SUFFIXES[1:]}, R one of {[r for r, _ in NORM_REPORTERS]}")
+    n_ob = sum(aggn["verdicts"].values())
+    n_ok = sum(v for k, v in aggn["verdicts"].items() if k.endswith(":valid"))
+    rep.oblige(n_ok)
+    rep.oblige(n_ob - n_ok, ok=False)
+    for f in aggn["findings"]:
+        if f["verdict"] != "cex":
+            rep.inconc(f"normal form/{f['clause']}: solver verdict {f['verdict']}")
+            continue
+        rep.replays += 1
+        bad, detail = replay_norm(f["witness"])
+        if bad is None:
+            rep.inconc(f"normal-form model not realisable through the extractor: {detail}")
+        elif bad:
+            key = ("norm", tuple(bad), f["witness"]["text"].split(" ", 1)[1].rsplit(" ", 1)[0], "".join(ch for ch in f["witness"]["text"].rsplit(" ", 1)[1] if not ch.isdigit()))
+            if key not in seen:
+                seen.add(key)
+                if len([k for k in seen if k[0] == "norm"]) <= 4:
+                    rep.violation(f"normal form: {detail}: {bad}", {"kind": "norm", "witness": f["witness"]})
+        else:
+            rep.spurious += 1
+            rep.inconc(f"normal-form model did not reproduce: {f['witness']} ({detail})")
     # placeholder pages through the real __post_init__
     aggp = common.explore_split("vf.harness.c16", {"part": "post_init", "N": 4 if quick else 6}, depth=3)
     rep.merge_explore("placeholder_pages", aggp)
@@ -547,6 +716,10 @@ def replay_file(path):
     import json
 
     r = json.load(open(path))["replay"]
+    if r["kind"] == "norm":
+        bad, detail = replay_norm(r["witness"])
+        print(bad, detail)
+        return 1 if bad else 0
     if r["kind"] == "history":
         bad = concrete_history(r["witness"])
         print(bad)
